@@ -22,11 +22,16 @@ CONSTANTS Mode,     \* "cases": all subsets x orders x depths
 Id(u) == <<"id", u>>
 SS(o) == <<"set", "n", o, "r">>
 Tup(o, s) == <<"n", o, "r", s>>
+\* a second relation and the empty relation: a subject set names ONE relation of its object
+SSr(o, rel) == <<"set", "n", o, rel>>
+TupR(o, rel, s) == <<"n", o, rel, s>>
 IsSet(s) == s[1] = "set"
 
 \* chain, diamond, 2- and 3-cycles, self loop, a duplicate, users at several distances
 UniverseSeq == << Tup("s", SS("a")), Tup("s", SS("b")), Tup("a", SS("b")), Tup("b", Id("u")), Tup("b", SS("c")),
-                  Tup("c", Id("v")), Tup("c", SS("s")), Tup("a", Id("w")), Tup("s", Id("u")), Tup("b", SS("b")) >>
+                  Tup("c", Id("v")), Tup("c", SS("s")), Tup("a", Id("w")), Tup("s", Id("u")), Tup("b", SS("b")),
+                  \* the object b referenced with the empty relation (no relationship has it), and b under another relation
+                  Tup("s", SSr("b", "")), TupR("b", "q", Id("x")) >>
 N == Len(UniverseSeq)
 Ident == [i \in 1..N |-> i]
 Rev   == [i \in 1..N |-> N + 1 - i]
@@ -44,7 +49,7 @@ U == IF Mode = "wide" THEN WideSeq(wn) ELSE UniverseSeq
 Stored == IF Mode = "wide" THEN 1..Len(U) ELSE S
 Order == IF Mode = "wide" THEN [i \in 1..Len(U) |-> i] ELSE Ords[oi]
 \* rows of subject set s (by its object) in storage order
-RowsOf(s) == LET idx == SelectSeq(Order, LAMBDA i : i \in Stored /\ U[i][2] = s[3])
+RowsOf(s) == LET idx == SelectSeq(Order, LAMBDA i : i \in Stored /\ U[i][2] = s[3] /\ U[i][3] = s[4])
              IN [j \in 1..Len(idx) |-> U[idx[j]]]
 
 NilT == [t |-> "nil"]
@@ -88,12 +93,12 @@ StoredTuples == {U[i] : i \in Stored}
 \* subjects within k edges of set s
 RECURSIVE Reach(_, _)
 Reach(s, k) == IF k = 0 \/ ~IsSet(s) THEN {}
-               ELSE LET direct == {t[4] : t \in {x \in StoredTuples : x[2] = s[3]}}
+               ELSE LET direct == {t[4] : t \in {x \in StoredTuples : x[2] = s[3] /\ x[3] = s[4]}}
                     IN direct \cup UNION {Reach(x, k - 1) : x \in direct}
 Users(X) == {x \in X : ~IsSet(x)}
 
 \* every parent -> child edge is a stored relationship
-EdgesAreTuples(tr) == \A e \in Edges(tr) : Tup(e[1][3], e[2]) \in StoredTuples
+EdgesAreTuples(tr) == \A e \in Edges(tr) : TupR(e[1][3], e[1][4], e[2]) \in StoredTuples
 ExpandedOnce(tr) == LET ex == Expanded(tr) IN \A i, j \in 1..Len(ex) : i # j => ex[i] # ex[j]
 DepthBound(tr, d) == Height(tr) <= d
 LeavesSound(tr) == Users(Leaves(tr)) \subseteq Users(Reach(Root, N + 2))
